@@ -1963,12 +1963,19 @@ class mulgrid(object):
         layer_mapping = self.layer_mapping(geo)
         for dest in geo.block_name_list:
             destcol, destlayer = geo.column_name(dest), geo.layer_name(dest)
-            sourcecol, sourcelayer = col_mapping[destcol], layer_mapping[destlayer]
+            sourcelayer = layer_mapping[destlayer]
             if destlayer == geo.layerlist[0].name:
                 sourcelayer = self.layerlist[0].name # atmosphere layer
                 if self.atmosphere_type == 0:
                     sourcecol = self.atmosphere_column_name
+                elif self.atmosphere_type == 1:
+                    # atmosphere block over the mapped column (or, for a single
+                    # destination atmosphere block, over the first column):
+                    if destcol in col_mapping: sourcecol = col_mapping[destcol]
+                    else: sourcecol = self.columnlist[0].name
+                else: continue # no atmosphere blocks to map to
             else:
+                sourcecol = col_mapping[destcol]
                 # if source block is above surface in column, use
                 # first layer below surface instead:
                 if self.column[sourcecol].surface <= self.layer[sourcelayer].bottom:
